@@ -4,7 +4,7 @@
    fault tail).  Executable definitions only; proofs in Proofs/Fault.v. *)
 From Coq Require Import List NArith Bool Arith.
 Import ListNotations.
-From OV Require Import Base.Cases Base.ErrClass Model.Latch Gen.Continuable Model.Chunk.
+From OV Require Import Base.Bytes Base.Cases Base.ErrClass Model.Latch Gen.Continuable Model.Chunk.
 
 Definition rcls_eqb (a b : rcls) : bool :=
   match a, b with
@@ -60,4 +60,17 @@ Definition check_case (x : fcase) : bool :=
       existsb (rcls_eqb c) (fault_classes fmt)
       && Bool.eqb cont (fmt_cont fmt c)
       && Bool.eqb terminal (transform_terminal fmt c)
+  end.
+
+(* ---- fixedlength/reader.go readByHeaderFooterEnvelope: how an envelope starts ----------------- *)
+(* Over what the line reader delivers from here on (the lines ls, then the error e): readLine skips
+   empty lines; a read error other than io.EOF is wrapped into the fatal ErrInvalidEnvelope; the
+   first non-empty line is matched against the envelope headers from the current one on -- and if
+   none matches, io.EOF is returned at once (reader.go:112), without reading any further. *)
+Inductive hf_res := HfEOF | HfFatal | HfEnvelope (first_line : bytes).
+
+Definition hf_envelope_start (headers : list (bytes -> bool)) (ls : list bytes) (e : ioerr) : hf_res :=
+  match filter (fun l => negb (is_nil l)) ls with
+  | [] => match e with IoEOF => HfEOF | _ => HfFatal end
+  | l :: _ => if existsb (fun h => h l) headers then HfEnvelope l else HfEOF
   end.
